@@ -72,14 +72,17 @@ type slot struct {
 	rnd  *rand.Rand
 	cur  *reqState
 	done []*reqState
-	h    http.Handler
+	hs   []http.Handler // one per entry point of the topology
 }
 
 type stressCfg struct {
 	name    string
 	retain  bool
 	off     bool
-	shared  bool // one wrapped handler for all clients; the inner handler finds its request through the context it is given
+	shared  bool    // one wrapped handler for all clients; the inner handler finds its request through the context it is given
+	mwOff   bool    // middleware level below the base handler's minimum level
+	nmw     int     // LogMiddleware instances (default 1)
+	routes  [][]int // entry points: each request takes one of them at random (default: [1])
 	clients int
 	reqs    int
 	tr      *tracer
@@ -92,16 +95,25 @@ type stressCfg struct {
 // context, and everything is validated after the goroutines have joined - so
 // the race detector sees the code under test unmasked.
 func runStress(c stressCfg, res *vh.Result, seedStream uint64) (requests, policy, diverge int, dd *vh.Dedup) {
-	e := &env{retain: c.retain, off: c.off, tr: c.tr, yield: true}
-	mw := e.newMw()
-	sharedH := mw.Wrap(e.inner(func(r *http.Request) *reqState { return stateOf(r.Context()) }))
+	e := &env{retain: c.retain, off: c.off, mwOff: c.mwOff, tr: c.tr, yield: true}
+	mws := e.newMws(max(c.nmw, 1))
+	routes := c.routes
+	if len(routes) == 0 {
+		routes = [][]int{{1}}
+	}
+	sharedHs := make([]http.Handler, len(routes))
+	for k, rt := range routes {
+		sharedHs[k] = through(mws, rt, e.inner(func(r *http.Request) *reqState { return stateOf(r.Context()) }))
+	}
 	slots := make([]*slot, c.clients)
 	for i := range slots {
 		s := &slot{id: i + 1, rnd: vh.Rand(seedStream + uint64(i))}
 		if c.shared {
-			s.h = sharedH
+			s.hs = sharedHs
 		} else {
-			s.h = mw.Wrap(e.inner(func(*http.Request) *reqState { return s.cur }))
+			for _, rt := range routes {
+				s.hs = append(s.hs, through(mws, rt, e.inner(func(*http.Request) *reqState { return s.cur })))
+			}
 		}
 		slots[i] = s
 	}
@@ -119,11 +131,13 @@ func runStress(c stressCfg, res *vh.Result, seedStream uint64) (requests, policy
 			for k := 0; k < c.reqs; k++ {
 				rid := s.id*100000 + k + 1
 				st, r := e.newRequest(s.id, rid, randomOps(s.rnd))
+				entry := s.rnd.IntN(len(routes))
+				st.route = routes[entry]
 				s.cur = st
 				if c.tr != nil {
 					c.tr.begin(st)
 				}
-				if pv, panicked := vh.Try(func() { s.h.ServeHTTP(st.rec, r) }); panicked {
+				if pv, panicked := vh.Try(func() { s.hs[entry].ServeHTTP(st.rec, r) }); panicked {
 					panics[i] = pv
 					st.problem("ServeHTTP panicked: %v", pv)
 				}
@@ -141,7 +155,7 @@ func runStress(c stressCfg, res *vh.Result, seedStream uint64) (requests, policy
 	for _, s := range slots {
 		for _, st := range s.done {
 			requests++
-			dd.Add([]byte(opsKey(st.ops)))
+			dd.Add([]byte(fmt.Sprint(opsKey(st.ops), st.route)))
 			pr, pol := st.check(e, expectedFin(st.ops))
 			if pol {
 				policy++
@@ -150,8 +164,8 @@ func runStress(c stressCfg, res *vh.Result, seedStream uint64) (requests, policy
 				diverge++
 			}
 			if len(pr) > 0 {
-				res.Mismatch(fmt.Sprintf("LogMiddleware stress %s (VERIF_SEED=%d): request %d of client %d, handler does %s",
-					c.name, vh.Seed(), st.spec.rid, s.id, opsKey(st.ops)), pr[0], map[string]any{"problems": pr})
+				res.Mismatch(fmt.Sprintf("LogMiddleware stress %s (VERIF_SEED=%d): request %d of client %d through middleware(s) %v, handler does %s",
+					c.name, vh.Seed(), st.spec.rid, s.id, st.route, opsKey(st.ops)), pr[0], map[string]any{"problems": pr})
 			}
 		}
 	}
@@ -192,10 +206,21 @@ func stress(args []string) error {
 		{name: "copying handler, shared wrapped handler", shared: true},
 		{name: "retaining handler, shared wrapped handler", retain: true, shared: true},
 		{name: "disabled handler", off: true},
+		{name: "middleware level below the handler's minimum level", mwOff: true, retain: true},
+		{name: "middleware level below the handler's minimum level, shared wrapped handler", mwOff: true, shared: true},
+		{name: "outer(inner) chain and the inner instance alone, mixed entry points", retain: true, nmw: 2,
+			routes: [][]int{{1, 2}, {2}}},
+		{name: "outer(inner) chain, the inner and the outer instance alone, shared wrapped handlers", shared: true, nmw: 2,
+			routes: [][]int{{1, 2}, {2}, {1}}},
+		{name: "one instance wrapped twice and once, mixed entry points", retain: true, nmw: 1,
+			routes: [][]int{{1, 1}, {1}}},
 	} {
 		c.clients, c.reqs = clients, reqs
-		if c.off {
+		if c.off || c.mwOff {
 			c.reqs = max(1, reqs/4)
+		}
+		if c.nmw > 0 {
+			c.reqs = max(1, reqs/2)
 		}
 		n, p, dv, dd := runStress(c, res, uint64(1000*(i+1)))
 		total += n
